@@ -41,14 +41,23 @@ def main():
     ap.add_argument('--props', default='')
     ap.add_argument('--keep', action='store_true')
     ap.add_argument('--json', default='')
+    ap.add_argument('--seeded', action='store_true', help='also run the confirmed sub-agent seeds under /verif/seeded')
     a = ap.parse_args()
     import mutants
     only = set(x for x in a.only.split(',') if x)
     props = set(x for x in a.props.split(',') if x)
     res = []
+    muts = list(mutants.MUTANTS)
+    if a.seeded:
+        sd = os.path.join(VERIF, 'seeded')
+        for d in sorted(os.listdir(sd)) if os.path.isdir(sd) else []:
+            mp = os.path.join(sd, d, 'meta.json')
+            if os.path.exists(mp):
+                meta = json.load(open(mp))
+                muts.append({'id': 'seed:' + d, 'what': 'sub-agent seed: ' + meta.get('needs', ''), 'props': [meta['property']], 'expect': [], 'patch': os.path.join(sd, d, 'patch.diff')})
     base = tempfile.mkdtemp(prefix='vp_selftest_')
     try:
-        for m in mutants.MUTANTS:
+        for m in muts:
             if only and m['id'] not in only:
                 continue
             if props and not (set(m['props']) & props):
@@ -57,7 +66,11 @@ def main():
             os.makedirs(d)
             t0 = time.time()
             copy_repo(d)
-            err = apply_edits(d, m['edits'])
+            if 'patch' in m:
+                r0 = subprocess.run(['patch', '-p1', '-s', '-i', m['patch']], cwd=d, stdout=subprocess.PIPE, stderr=subprocess.STDOUT, text=True)
+                err = None if r0.returncode == 0 else 'patch does not apply: ' + r0.stdout[-200:]
+            else:
+                err = apply_edits(d, m['edits'])
             if err:
                 res.append({'id': m['id'], 'status': 'skipped', 'why': err})
                 print('%s SKIPPED %s' % (m['id'], err))
